@@ -1484,11 +1484,13 @@ pub const HAND_ZL1: usize = 169;
 pub const USESHAND_: usize = 170;
 pub const READONLY_: usize = 171;
 pub const USESREADONLY_: usize = 172;
-pub const DER_HANDLES: usize = 173;
+/// first handle of the generated combinatorial corpus (`combo.rs`)
+pub const COMBO_FROM: usize = 173;
+pub const DER_HANDLES: usize = 173 + crate::combo::COMBO_LEN;
 
 use Place::{Lit, RenameOnly, Table as Tb};
 
-pub const MANIFEST: [DerInfo; DER_HANDLES] = [
+const HAND_MANIFEST: [DerInfo; COMBO_FROM] = [
     // type A0 = { a: A1, b: Array<A2>, c: A3 | null, d: { [key in string]?: A2 } };
     DerInfo { label: "A0", place: Tb(0), import_refs: &[A1_, A2_, A3_], reach_refs: &[A1_, A2_, A3_] },
     // type A1 = { x: number, inner: A3 };
@@ -1707,6 +1709,46 @@ pub const MANIFEST: [DerInfo; DER_HANDLES] = [
     DerInfo { label: "UsesReadOnly", place: Tb(148), import_refs: &[], reach_refs: &[] },
 ];
 
+const fn combo_row(i: usize) -> DerInfo {
+    DerInfo {
+        label: crate::combo::COMBO_NAMES[i],
+        place: Place::Lit {
+            name: crate::combo::COMBO_NAMES[i],
+            export_to: None,
+        },
+        import_refs: &[],
+        reach_refs: &[],
+    }
+}
+
+const fn build_manifest() -> [DerInfo; DER_HANDLES] {
+    let mut out = [const {
+        DerInfo {
+            label: "",
+            place: Place::NotExportable,
+            import_refs: &[],
+            reach_refs: &[],
+        }
+    }; DER_HANDLES];
+    let mut i = 0;
+    while i < COMBO_FROM {
+        out[i] = DerInfo {
+            label: HAND_MANIFEST[i].label,
+            place: HAND_MANIFEST[i].place,
+            import_refs: HAND_MANIFEST[i].import_refs,
+            reach_refs: HAND_MANIFEST[i].reach_refs,
+        };
+        i += 1;
+    }
+    while i < DER_HANDLES {
+        out[i] = combo_row(i - COMBO_FROM);
+        i += 1;
+    }
+    out
+}
+
+pub static MANIFEST: [DerInfo; DER_HANDLES] = build_manifest();
+
 pub fn der_handle(h: usize) -> Handle {
     let l = MANIFEST[h].label;
     match h {
@@ -1883,6 +1925,33 @@ pub fn der_handle(h: usize) -> Handle {
         USESHAND_ => handle::<UsesHand>(l),
         READONLY_ => handle::<ReadOnly>(l),
         USESREADONLY_ => handle::<UsesReadOnly>(l),
+        h if h >= COMBO_FROM => crate::combo::combo_handle(h - COMBO_FROM),
         _ => panic!("no such derived handle {h}"),
     }
+}
+
+/// Can this handle be used as a root? Generated combinations whose declaration cannot be rendered
+/// (the derive accepts them, rendering panics: e.g. `flatten` of a tuple) are found once per
+/// process and excluded.
+pub fn usable(h: usize) -> bool {
+    static VALID: std::sync::OnceLock<Vec<bool>> = std::sync::OnceLock::new();
+    if h < COMBO_FROM {
+        return true;
+    }
+    let valid = VALID.get_or_init(|| {
+        crate::exec::quietly(|| {
+            (0..crate::combo::COMBO_LEN)
+                .map(|i| {
+                    let hd = crate::combo::combo_handle(i);
+                    std::panic::catch_unwind(|| {
+                        let _ = (hd.decl)();
+                        let _ = (hd.decl_concrete)();
+                        let _ = (hd.dependencies)();
+                    })
+                    .is_ok()
+                })
+                .collect()
+        })
+    });
+    valid[h - COMBO_FROM]
 }
